@@ -7,3 +7,8 @@ import "github.com/postalsys/muti-metroo/internal/protocol"
 // VerifC32ReadFrame reads the next frame of a handshaken connection that no manager reads from
 // (the scripted remote end in /verif/harness/main/eng_c32.go).
 func (c *Connection) VerifC32ReadFrame() (*protocol.Frame, error) { return c.reader.Read() }
+
+// VerifC32LockMu / VerifC32UnlockMu hold the manager's write lock, so that the harness can let several
+// handshakes reach registerConnection and then release them together (race stress).
+func (m *Manager) VerifC32LockMu()   { m.mu.Lock() }
+func (m *Manager) VerifC32UnlockMu() { m.mu.Unlock() }
